@@ -330,11 +330,16 @@ fn spec_free(c: Cell, x: &RowCtx) -> Option<&'static str> {
                     _ => Some("chiplet selector columns (segment boundaries are the prover's choice) or unused bitwise columns"),
                 },
                 ("memory", "memory") => match col {
+                    // s1' is a function of the case split (memory.md): 0 when the context or the address
+                    // changes or the access is a write, 1 for a read of the same word
+                    4 => None,
                     // d0, d1: 16-bit limbs of the documented delta
                     12 | 13 => None,
+                    // d_inv': the inverse of the context (else address) difference whenever one of them changes
+                    14 if x.next[CHIP + 5] != x.cur[CHIP + 5] || x.next[CHIP + 6] != x.cur[CHIP + 6] => None,
                     // value of a read: copied from the previous access of the same word or zero
                     8..=11 if x.next[CHIP + 3].as_int() == 1 => None,
-                    _ => Some("memory selectors, written values (set through the bus), and the ctx / addr / clk cells whose role depends on the n0 / n1 case split are not classified here"),
+                    _ => Some("the read/write selector, ctx / addr / clk and written values are set through the bus (the transition constraints only keep the rows sorted: a change that stays consistent with the delta limbs is not a documented violation); d_inv is free when neither context nor address changes; chiplet selector columns"),
                 },
                 _ => Some("transition between chiplets, kernel ROM or padding rows: outside the chiplets the property names"),
             }
@@ -533,6 +538,7 @@ fn sweep(ctx: &Ctx, case: &ProgCase, challenges: &[Q], tally: &Mutex<Tally>, dum
             }
         }
     }
+    hasher_cycle_deviations(ctx, case, &air, main, &periodic, n, &mut local, &cj, dump);
     let mut t = tally.lock().unwrap();
     t.frames += local.frames;
     t.rows += local.rows;
@@ -541,6 +547,113 @@ fn sweep(ctx: &Ctx, case: &ProgCase, challenges: &[Q], tally: &Mutex<Tally>, dum
         for j in 0..4 {
             e[j] += v[j];
         }
+    }
+}
+
+/// Second fault model, for the hasher chiplet only: a deviation with honest continuation. A single-cell
+/// change of the hasher state is always caught by one of the two row pairs that contain the cell (the
+/// round function), so the single-cell sweep above cannot see a missing rule at a cycle boundary. Here
+/// the first row of a hash cycle (row r, r mod 8 = 0) is altered in ONE cell that the documentation ties
+/// to the previous cycle (hasher.md: the capacity is carried over when the next elements are absorbed in
+/// a linear hash; the previous digest is copied to h4..h7 or h8..h11 - chosen by the bit shifted out of
+/// the node index - when the next Merkle-path node is absorbed), the seven following rows are recomputed
+/// with the real RPO round function, and all nine row pairs (r-1, r) ... (r+7, r+8) are evaluated.
+/// The AIR must reject the deviation on at least one of them.
+#[allow(clippy::too_many_arguments)]
+fn hasher_cycle_deviations(
+    ctx: &Ctx,
+    case: &ProgCase,
+    air: &air::ProcessorAir,
+    main: &winter_prover::matrix::ColMatrix<Felt>,
+    periodic: &[Vec<Felt>],
+    n: usize,
+    local: &mut Tally,
+    cj: &dyn Fn() -> Value,
+    dump: bool,
+) {
+    use vm_core::crypto::hash::Rpo256;
+    let width = main.num_cols();
+    let nmain = air.context().num_main_transition_constraints();
+    let mut me = vec![Felt::ZERO; nmain];
+    let row = |i: usize| -> Vec<Felt> {
+        let mut v = vec![Felt::ZERO; width];
+        main.read_row_into(i, &mut v);
+        v
+    };
+    let st = CHIP + 4; // first hasher state column
+    let mut r = 8;
+    while r + 9 < n - 1 {
+        let rows: Vec<Vec<Felt>> = (r - 1..=r + 8).map(row).collect(); // rows[0] = r-1, rows[1] = r, ..., rows[9] = r+8
+        let all_hasher = rows[..9].iter().all(|x| chiplet_kind(x) == "hasher");
+        if !all_hasher {
+            r += 8;
+            continue;
+        }
+        // machinery self-check: the honest rows r+1..r+7 are the RPO rounds of row r
+        let mut state: [Felt; 12] = core::array::from_fn(|j| rows[1][st + j]);
+        for k in 0..7 {
+            Rpo256::apply_round(&mut state, k);
+            assert!((0..12).all(|j| state[j] == rows[2 + k][st + j]), "harness: the hasher rows after row {r} of {} are not RPO rounds of it", case.name);
+        }
+        let prev = &rows[0];
+        let sel = (prev[CHIP + 1].as_int(), prev[CHIP + 2].as_int(), prev[CHIP + 3].as_int());
+        let bit = prev[CHIP + 16].as_int().wrapping_sub(2u64.wrapping_mul(rows[1][CHIP + 16].as_int()));
+        // the cells of row r that the documentation ties to row r-1
+        let (flag, tied): (&str, Vec<usize>) = match sel {
+            (1, 0, 0) => ("ABP", (0..4).collect()),
+            (1, 0, 1) | (1, 1, 0) | (1, 1, 1) => {
+                let name = match sel {
+                    (1, 0, 1) => "MPA",
+                    (1, 1, 0) => "MVA",
+                    _ => "MUA",
+                };
+                (name, if bit == 0 { (4..8).collect() } else { (8..12).collect() })
+            }
+            _ => ("", vec![]),
+        };
+        for j in tied {
+            for d in [Felt::ONE, Felt::new(P - 1)] {
+                let mut mutated: Vec<Vec<Felt>> = rows.clone();
+                mutated[1][st + j] += d;
+                let mut state: [Felt; 12] = core::array::from_fn(|q| mutated[1][st + q]);
+                for k in 0..7 {
+                    Rpo256::apply_round(&mut state, k);
+                    for q in 0..12 {
+                        mutated[2 + k][st + q] = state[q];
+                    }
+                }
+                let mut rejected = false;
+                for k in 0..9 {
+                    let mut f = EvaluationFrame::<Felt>::new(width);
+                    f.current_mut().copy_from_slice(&mutated[k]);
+                    f.next_mut().copy_from_slice(&mutated[k + 1]);
+                    let pv = airx::periodic_at(periodic, r - 1 + k);
+                    me.iter_mut().for_each(|v| *v = Felt::ZERO);
+                    air.evaluate_transition(&f, &pv, &mut me);
+                    if me.iter().any(|v| *v != Felt::ZERO) {
+                        rejected = true;
+                        break;
+                    }
+                }
+                let key = (format!("hasher cycle start after {flag} (state recomputed)"), format!("h{j}"));
+                let e = local.per.entry(key).or_insert([0; 4]);
+                e[0] += 1;
+                local.frames += 9;
+                if rejected {
+                    e[1] += 1;
+                } else {
+                    e[3] += 1;
+                    if !dump {
+                        ctx.fail(
+                            json!({"kind": "consistent_deviation_not_rejected", "op": format!("hasher:{flag}"), "cell": format!("h{j}")}),
+                            format!("{} row {r}: first row of the hash cycle after {flag} (bit shifted out of the index = {bit}): h{j} altered by {} and rows {}..{} recomputed with the RPO round function: no transition constraint fires on any of the row pairs {}..{}", case.name, d.as_int(), r + 1, r + 7, r - 1, r + 8),
+                            json!({"prog": cj(), "row": r, "cell": format!("h{j}"), "model": "hasher_cycle"}),
+                        );
+                    }
+                }
+            }
+        }
+        r += 8;
     }
 }
 
@@ -579,7 +692,7 @@ pub fn family(ctx: &Ctx) -> Vec<ProgCase> {
             }
         })
         .collect();
-    v.extend(progs::shapes().into_iter().filter(|c| ctx.tier == mcx::Tier::Thorough || c.name.starts_with("deep_out") || c.name.ends_with("/8") || c.name.ends_with("/30") || c.name.ends_with("/20")));
+    v.extend(progs::shapes().into_iter().filter(|c| ctx.tier == mcx::Tier::Thorough || c.name.starts_with("deep_out") || c.name.starts_with("memctx") || c.name.ends_with("/8") || c.name.ends_with("/30") || c.name.ends_with("/20")));
     v.extend(bare_ops());
     v
 }
